@@ -356,7 +356,39 @@ def rule_electrum_normalize_order(ctx: Ctx, rep: Report) -> None:
     rep.floor(rule, 2)
 
 
+def rule_word_indexes_in_range(ctx: Ctx, rep: Report) -> None:
+    """C13.word_indexes_in_range: an index into a word list is a digit in base
+    len(wordlist). `mnemonic_from_indexes` subscripts the list with the
+    caller's numbers only past a refusal of a number outside
+    0 .. len(wordlist) - 1: Python's subscript refuses on one side only
+    (IndexError for 2048) and on the other counts from the end -- -1 is "zoo",
+    and the sentence decodes to other indexes than it was made of."""
+    from sa.ranges import refusal_constraints, has, has_bound
+    rule = "C13.word_indexes_in_range"
+    fi = ctx.func("btclib.mnemonic.mnemonic.mnemonic_from_indexes")
+    subs = [x for x in own_nodes(fi.node) if isinstance(x, ast.Subscript) and isinstance(x.slice, ast.Name) and isinstance(x.value, ast.Name) and isinstance(x.ctx, ast.Load)]
+    if not subs:
+        rep.unknown(rule, "mnemonic_from_indexes", fi.where(), "no subscript by a name")
+        return
+    wl, ix = subs[0].value.id, subs[0].slice.id
+    cs = refusal_constraints(ctx, fi)
+    lo = has_bound(cs, "<", 0, subject=ix) is not None or has_bound(cs, "<=", -1, subject=ix) is not None
+    up = has(cs, ix, ">=", f"len({wl})") is not None or has(cs, ix, ">", f"len({wl}) - 1") is not None
+    if not (lo and up):
+        # the refusal may be written over another loop variable walking the same parameter
+        others = {str(c.subject) for c in cs if not c.from_fact}
+        for o in others:
+            lo2 = has_bound(cs, "<", 0, subject=o) is not None
+            up2 = has(cs, o, ">=", f"len({wl})") is not None
+            lo, up = lo or lo2, up or up2
+    rep.ob(rule, "mnemonic_from_indexes:range", lo and up, fi.where(subs[0]), f"`{wl}[{ix}]` only for 0 <= {ix} < len({wl})" if lo and up else
+           f"`{wl}[{ix}]` with the caller's numbers unasked (refusals: {[c.show() for c in cs][:3]}): -1 is read from the end of the list")
+    rep.floor(rule, 1)
+
+
 RULES = [
+    ("C13.word_indexes_in_range", rule_word_indexes_in_range),
+
     ("C13.electrum_normalize_order", rule_electrum_normalize_order),
     ("C13.slip39_padding", rule_slip39_padding),
     ("C13.passphrase_as_typed", rule_passphrase_as_typed),
